@@ -551,6 +551,19 @@ def check_define_slot(ctx, rep, rule):
             continue
         if r and r[0] == 'agg' and r[2] in ('Some', 'Ok') and r[3]:
             r = simp(deref(p.env, r[3][0]))
+        if r and r[0] == 'okval' and isinstance(r[1], tuple) and r[1][0] == 'call' and r[1][1].endswith('Option::<T>::map') and len(r[1][2]) == 2 \
+                and isinstance(r[1][2][1], tuple) and r[1][2][1][0] == 'closure' and r[1][2][1][1] in F.fns:
+            # `u16::try_from(slot).ok().map(|index| Symbol { index, scope })`: the symbol is built by the closure from the payload
+            g = F.fns[r[1][2][1][1]]
+            fields = [f['name'] for f in F.adt('symbols::Symbol')['variants'][0]['fields']]
+            builds = False
+            for pg in AbsInt(F, g).run():
+                rg = simp(pg.env.get('_0'))
+                if pg.exit == 'return' and rg and rg[0] == 'agg' and rg[1] == 'symbols::Symbol':
+                    iv = deref(pg.env, rg[3][fields.index('index')])
+                    builds = iv in (('local', 2), ('deref', ('local', 2)))
+            if builds:
+                idx = ('okval', r[1][2][0])
         if r and r[0] == 'agg' and r[1] == 'symbols::Symbol':
             fields = [f['name'] for f in F.adt('symbols::Symbol')['variants'][0]['fields']]
             idx = r[3][fields.index('index')]
